@@ -236,3 +236,107 @@ int orc_defer_total(void)
 		n += dn[t];
 	return n;
 }
+
+/* ---------------------------------------------------------------- hash table presence */
+#define HMAXN 64
+#define HMAXT 128
+struct hnode_rec { int key; int known; uint64_t add_inv, add_ret, rem_inv, rem_ret; };
+struct htrav { int key; uint64_t inv, ret; uint64_t visited; int nvis; int order[HMAXN]; };
+static struct hnode_rec hn[HMAXN];
+static struct htrav ht_[HMAXT];
+static int nhtrav;
+
+void hor_node(int id, int key)
+{
+	if (id < 0 || id >= HMAXN)
+		usim_bug("hor: node id out of range");
+	hn[id].key = key;
+	hn[id].known = 1;
+}
+
+void hor_added(int id, uint64_t inv)
+{
+	hn[id].add_inv = inv;
+	hn[id].add_ret = usim_seq();
+}
+
+void hor_removed(int id, uint64_t inv)
+{
+	if (hn[id].rem_ret)
+		usim_fail("lfht-two-owners", "node %d was obtained by two removal/replacement calls", id);
+	hn[id].rem_inv = inv;
+	hn[id].rem_ret = usim_seq();
+}
+
+int hor_trav_begin(int key)
+{
+	if (nhtrav >= HMAXT)
+		usim_bug("hor: too many traversals");
+	memset(&ht_[nhtrav], 0, sizeof(ht_[0]));
+	ht_[nhtrav].key = key;
+	ht_[nhtrav].inv = usim_seq();
+	return nhtrav++;
+}
+
+void hor_trav_visit(int t, int id)
+{
+	struct htrav *tr = &ht_[t];
+	if (id < 0 || id >= HMAXN || !hn[id].known)
+		usim_fail("lfht-traversal", "traversal returned something that is not a user node (id %d)", id);
+	if (tr->visited & (1ULL << id))
+		usim_fail("lfht-traversal", "%s visited node %d (key %d) twice",
+			tr->key < 0 ? "full traversal" : "duplicate walk", id, hn[id].key);
+	if (tr->nvis >= HMAXN)
+		usim_fail("lfht-traversal", "traversal does not terminate");
+	tr->visited |= 1ULL << id;
+	tr->order[tr->nvis++] = id;
+}
+
+void hor_trav_end(int t) { ht_[t].ret = usim_seq(); }
+
+int hor_is_present(int id) { return hn[id].known && hn[id].add_ret && !hn[id].rem_ret; }
+
+int hor_present_count(void)
+{
+	int i, n = 0;
+	for (i = 0; i < HMAXN; i++)
+		n += hor_is_present(i);
+	return n;
+}
+
+void hor_check(unsigned unique_mask)
+{
+	int t, i, j;
+	for (t = 0; t < nhtrav; t++) {
+		struct htrav *tr = &ht_[t];
+		const char *what = tr->key < 0 ? "full traversal" : "duplicate walk";
+		for (i = 0; i < HMAXN; i++) {
+			struct hnode_rec *n = &hn[i];
+			int vis = (tr->visited >> i) & 1;
+			if (!n->known || (tr->key >= 0 && n->key != tr->key))
+				continue;
+			if (vis) {
+				if (!n->add_inv || n->add_inv > tr->ret)
+					usim_fail("lfht-traversal", "%s [#%lu-#%lu] visited node %d which had not been added yet",
+						what, (unsigned long) tr->inv, (unsigned long) tr->ret, i);
+				if (n->rem_ret && n->rem_ret < tr->inv)
+					usim_fail("lfht-traversal", "%s [#%lu-#%lu] visited node %d whose removal had completed at #%lu",
+						what, (unsigned long) tr->inv, (unsigned long) tr->ret, i, (unsigned long) n->rem_ret);
+			} else {
+				if (n->add_ret && n->add_ret < tr->inv && (!n->rem_inv || n->rem_inv > tr->ret))
+					usim_fail("lfht-resident-missed",
+						"%s [#%lu-#%lu] missed node %d (key %d) which was in the table for its whole duration (added by #%lu%s)",
+						what, (unsigned long) tr->inv, (unsigned long) tr->ret, i, n->key,
+						(unsigned long) n->add_ret, n->rem_inv ? ", removed later" : ", never removed");
+			}
+		}
+		for (i = 0; i < tr->nvis; i++)
+			for (j = i + 1; j < tr->nvis; j++) {
+				int a = tr->order[i], b = tr->order[j];
+				if (hn[a].key == hn[b].key && (unique_mask & (1u << hn[a].key)))
+					usim_fail("lfht-duplicate-exposed",
+						"%s [#%lu-#%lu] returned two nodes (%d and %d) for key %d, which is only ever inserted with add_unique/add_replace",
+						what, (unsigned long) tr->inv, (unsigned long) tr->ret, a, b, hn[a].key);
+			}
+	}
+}
